@@ -61,7 +61,9 @@ func (v *version) measurer(b []byte) meas {
 			vector: func() { sinkS = c.Vector() },
 			get:    func(a string) { sinkS, sinkE = c.Get(a) },
 			set:    func(a, val string) { sinkE = c.Set(a, val) },
-			score:  func() { sinkF = c.BaseScore() + c.TemporalScore() + c.EnvironmentalScore() + c.Impact() + c.Exploitability() },
+			score: func() {
+				sinkF = c.BaseScore() + c.TemporalScore() + c.EnvironmentalScore() + c.Impact() + c.Exploitability()
+			},
 		}
 	case "30":
 		c := gocvss30.VerifFromBytes([6]byte(b))
@@ -70,7 +72,9 @@ func (v *version) measurer(b []byte) meas {
 			vector: func() { sinkS = c.Vector() },
 			get:    func(a string) { sinkS, sinkE = c.Get(a) },
 			set:    func(a, val string) { sinkE = c.Set(a, val) },
-			score:  func() { sinkF = c.BaseScore() + c.TemporalScore() + c.EnvironmentalScore() + c.Impact() + c.Exploitability() },
+			score: func() {
+				sinkF = c.BaseScore() + c.TemporalScore() + c.EnvironmentalScore() + c.Impact() + c.Exploitability()
+			},
 			rating: func(x float64) { sinkS, sinkE = gocvss30.Rating(x) },
 		}
 	case "31":
@@ -80,7 +84,9 @@ func (v *version) measurer(b []byte) meas {
 			vector: func() { sinkS = c.Vector() },
 			get:    func(a string) { sinkS, sinkE = c.Get(a) },
 			set:    func(a, val string) { sinkE = c.Set(a, val) },
-			score:  func() { sinkF = c.BaseScore() + c.TemporalScore() + c.EnvironmentalScore() + c.Impact() + c.Exploitability() },
+			score: func() {
+				sinkF = c.BaseScore() + c.TemporalScore() + c.EnvironmentalScore() + c.Impact() + c.Exploitability()
+			},
 			rating: func(x float64) { sinkS, sinkE = gocvss31.Rating(x) },
 		}
 	default:
